@@ -3,6 +3,7 @@
 package snaps
 
 import (
+	"bytes"
 	"fmt"
 	"os"
 	"path/filepath"
@@ -28,6 +29,7 @@ type c05Case struct {
 	Two       bool   `json:"two,omitempty"`       // call cells: an unrelated entry precedes the slot
 	Empty     bool   `json:"empty,omitempty"`     // call cells: the stored value is the empty text
 	HeaderVal bool   `json:"headerval,omitempty"` // call cells: the stored value consists of lines shaped like an entry header and a near-terminator
+	CRLF      bool   `json:"crlf,omitempty"`      // call cells: the pre-existing multi-entry file has CR LF line ends
 	AfterFail bool   `json:"afterfail,omitempty"` // call cells: the same test made two failing calls (invalid JSON, mismatch) into another file first
 }
 
@@ -56,6 +58,9 @@ func c05Gen(c *vfCtx, emit func(c05Case)) {
 					}
 					// the same cell after an earlier call of the SAME test has failed (into another file): permissions do not depend on the test's history
 					emit(c05Case{Kind: "call", CI: ci, Env: env, Opt: opt, API: api, Slot: slot, AfterFail: true})
+					if slot != "missing" && api != "ssnap" && api != "sjson" {
+						emit(c05Case{Kind: "call", CI: ci, Env: env, Opt: opt, API: api, Slot: slot, CRLF: true, Two: true})
+					}
 					if c.thorough() {
 						emit(c05Case{Kind: "call", CI: ci, Env: env, Opt: opt, API: api, Slot: slot, Two: true, Color: true})
 						emit(c05Case{Kind: "call", CI: ci, Env: env, Opt: opt, API: api, Slot: slot, Two: true})
@@ -168,6 +173,12 @@ func c05Run(c *vfCtx, cs c05Case) {
 			}
 			es[len(es)-1].Body = relaid
 			os.WriteFile(filepath.Join(dir, "f.snap"), vfRender(es), 0o644)
+		}
+	}
+	if cs.CRLF {
+		p := filepath.Join(dir, "f.snap")
+		if b, err := os.ReadFile(p); err == nil {
+			os.WriteFile(p, bytes.ReplaceAll(b, []byte("\n"), []byte("\r\n")), 0o644)
 		}
 	}
 	if cs.AfterFail {
